@@ -6,6 +6,7 @@ import (
 	"go/token"
 	"go/types"
 	"os"
+	"sort"
 	"strings"
 
 	"golang.org/x/tools/go/ssa"
@@ -349,6 +350,118 @@ func runC16(c *Ctx) {
 				c.Check(fname(fn)+"#transfer-after-CanTransfer", ci.Pos(), ok, ifelse(ok, "dominated by CanTransfer(state, sender, value) == true", "value is transferred without the balance check on the same sender and amount: a balance can go negative"))
 			}
 		}
+	}
+
+	// ------------------------------------------------------------ F5
+	c.Rule("C16.F5", "CONFINED+ALWAYS-WITH", "what a frame can change through the vm.StateDB interface is undoable: in every mutating method of the interface as implemented by (*state.StateDB), and in the stateObject methods they call, each change of revertable state is on the same paths as a journal append (or in a tabled raw setter whose caller journals); Suicide returns true only after journaling, marking the object and zeroing its balance — opSuicide has credited the beneficiary with that balance")
+	c.Min(12)
+	{
+		t9 := c09tables(w)
+		iface := w.Named("core/vm", "StateDB").Underlying().(*types.Interface)
+		var roots []*ssa.Function
+		for i := 0; i < iface.NumMethods(); i++ {
+			m := iface.Method(i)
+			switch m.Name() {
+			case "CreateAccount", "SubBalance", "AddBalance", "SetNonce", "SetCode", "AddRefund", "SubRefund", "SetState", "Suicide", "AddLog", "AddPreimage":
+				if fn := w.FnOpt("core/state", "StateDB", m.Name()); fn != nil {
+					roots = append(roots, fn)
+				} else {
+					c.Undecided("core/state.StateDB."+m.Name(), 0, "mutating method of vm.StateDB not found on *state.StateDB")
+				}
+			}
+		}
+		reach := reachableStatic(roots, func(f *ssa.Function) bool { return f.Pkg != nil && f.Pkg.Pkg.Path() == full("core/state") })
+		var fns []*ssa.Function
+		for f := range reach {
+			fns = append(fns, f)
+		}
+		sort.Slice(fns, func(i, j int) bool { return fname(fns[i]) < fname(fns[j]) })
+		for _, fn := range fns {
+			muts := t9.mutationsIn(fn)
+			if len(muts) == 0 {
+				continue
+			}
+			name := fname(fn)
+			if t9.isRevertMethod(fn) {
+				continue
+			}
+			if o, ok := fn.Object().(*types.Func); ok && t9.rawSetters[o] {
+				continue // judged at its call sites (which are mutations of the caller)
+			}
+			if _, ok := t9.lifecycle[outerName(name)]; ok {
+				continue
+			}
+			c.sawFunc(name)
+			appends := callsAsInstrs(callsTo(fn, t9.append_))
+			byKey := map[string][]c09Mutation{}
+			for _, m := range muts {
+				byKey[m.Key] = append(byKey[m.Key], m)
+			}
+			var keys []string
+			for k := range byKey {
+				keys = append(keys, k)
+			}
+			sort.Strings(keys)
+			for _, k := range keys {
+				construct := name + "#" + k
+				if _, ok := t9.lifecycle[construct]; ok {
+					continue
+				}
+				ok := true
+				var bad ssa.Instruction
+				for _, m := range byKey[k] {
+					c.sites++
+					if !alwaysWith(m.Instr, appends) && !appendInLoopOver(m.Instr, appends) {
+						ok, bad = false, m.Instr
+					}
+				}
+				pos := byKey[k][0].Instr.Pos()
+				if bad != nil {
+					pos = bad.Pos()
+				}
+				c.Check(construct, pos, ok, ifelse(ok, "journal append on the same paths", "a frame changes this state on a path that appends no journal entry: when the frame (or a caller) fails, RevertToSnapshot cannot put it back, and storage / balances are not as they were before the failed call"))
+			}
+		}
+		// Suicide: true only after journal, mark and zeroed balance
+		su := w.Fn("core/state", "StateDB", "Suicide")
+		c.sawFunc(fname(su))
+		balF := w.Field("core/state", "Account", "Balance")
+		var zero, mark, jr []ssa.Instruction
+		for _, fw := range fieldWrites(su) {
+			if fw.Field == balF {
+				zero = append(zero, fw.Instr)
+			}
+		}
+		for _, ci := range callInstrs(su) {
+			if o := calleeObj(ci); o != nil {
+				if o.Name() == "markSuicided" {
+					mark = append(mark, ci)
+				}
+				if sameFunc(o, t9.append_) {
+					jr = append(jr, ci)
+				}
+			}
+		}
+		nTrue, bad := 0, 0
+		for _, b := range su.Blocks {
+			r, ok := b.Instrs[len(b.Instrs)-1].(*ssa.Return)
+			if !ok || b == su.Recover {
+				continue
+			}
+			mayTrue := true
+			if cv, isC := r.Results[0].(*ssa.Const); isC && cv.Value != nil && cv.Value.Kind() == constant.Bool && !constant.BoolVal(cv.Value) {
+				mayTrue = false
+			}
+			if !mayTrue {
+				continue
+			}
+			nTrue++
+			if !(mustPassBefore(r, zero) && mustPassBefore(r, mark) && mustPassBefore(r, jr)) {
+				bad++
+			}
+		}
+		c.sites += nTrue
+		c.Check(fname(su)+"#true-only-after-zeroing", su.Pos(), nTrue > 0 && bad == 0, ifelse(nTrue > 0 && bad == 0, "every return that may be true passed the journal append, markSuicided and the balance reset", "Suicide can return true without having zeroed the balance (or journaled / marked): SELFDESTRUCT has already credited the beneficiary with that balance, so a contract that is re-funded after its first SELFDESTRUCT pays the same value out again — the sum of all balances grows"))
 	}
 
 	// ------------------------------------------------------------ F4
